@@ -160,6 +160,8 @@ def run(ctx):
                                 % (sorted(fields), [short(x.name) for x in other_calls], len(d["consts"])), [c.loc()])
     r.floor("R05-e", n, 2, "fs::write sites in the emitters")
 
+    reset_flag_pairing(ctx, "R05-g")
+
     # R05-f (shared) ----------------------------------------------------------------------------
     import c06
     import c16
@@ -216,3 +218,64 @@ def check_input_loop(ctx, rid):
                         "and whether the other roots are formatted depends on argument order" % (cname, what),
                         [culprit.loc() if culprit else "%s:%d" % (f.file, f.line)])
     r.floor(rid, found, 1, "per-input loops in rustfmt::format")
+
+
+def reset_flag_pairing(ctx, rid):
+    """R05-g: parser errors of a non-ignored file can never be reset"""
+    from absint import explore, vkey, TooManyPaths
+    p, r = ctx.p, ctx.r
+    r.rule(rid, "SilentOnIgnoredFilesEmitter keeps the invariant has_non_ignorable_parser_errors ⇒ ¬can_reset: every path that "
+                "sets the flag also stores false into can_reset, and can_reset is stored true only on a path that decided the "
+                "flag false (otherwise Parser::parse_file_as_module resets the errors of a broken module and formats it)")
+    fns = [f for f in p.by_crate["rustfmt_nightly"] if "SilentOnIgnoredFilesEmitter" in f.id and f.kind != "Closure"]
+    n_set = n_store = 0
+    for f in fns:
+        def eff(c, _f=f):
+            if c.name.endswith("AtomicBool::store") and c.args and c.args[0][0] != "k":
+                fields = {x[2] for x in _f.derived_from(c.args[0][1][0])["fields"]}
+                for e in c.args[0][1][1]:
+                    if isinstance(e, (list, tuple)) and e[0] == "f":
+                        fields.add(e[4])
+                return "can_reset" in fields
+            return False
+        try:
+            paths = explore(f, is_effect=eff, max_paths=20000)
+        except TooManyPaths as e:
+            r.undecidable(rid, str(e))
+            continue
+        r.paths(rid, len(paths))
+        for path in paths:
+            if path.end not in ("ret",):
+                continue
+            sets = [e for e in path.effects if e.kind == "store" and e.name.endswith("has_non_ignorable_parser_errors")
+                    and vkey(e.args[0]) == "true"]
+            stores = [e for e in path.effects if e.kind == "call"]
+            flag = None
+            for k, v in path.decisions:
+                if k.endswith("has_non_ignorable_parser_errors") and isinstance(v, bool):
+                    flag = v
+            if sets:
+                n_set += 1
+                ok = any(vkey(e.args[1]) == "false" for e in stores if len(e.args) > 1)
+                r.instance(rid, "%s: sets the flag" % short(f.id), "ok" if ok else "violation", "%s:%d" % (f.file, sets[0].line))
+                if not ok:
+                    r.violation(rid, "%s sets has_non_ignorable_parser_errors without clearing can_reset" % short(f.id),
+                                "after an error in a non-ignored file can_reset may still be true (set by an earlier error in an "
+                                "ignored file): the errors are then reset and a module that failed to parse is formatted from its "
+                                "recovered syntax tree", ["%s:%d" % (f.file, sets[0].line)])
+            for e in stores:
+                if len(e.args) < 2:
+                    continue
+                v = vkey(e.args[1])
+                if v == "false":
+                    continue
+                n_store += 1
+                # `true` under a test that the flag is false, or the value ¬flag itself (false whenever the flag is set)
+                ok = (v == "true" and flag is False) or v == "!arg1.has_non_ignorable_parser_errors"
+                r.instance(rid, "%s: can_reset.store(%s) with flag=%s" % (short(f.id), v, flag), "ok" if ok else "violation",
+                           "%s:%d" % (f.file, e.line))
+                if not ok:
+                    r.violation(rid, "%s stores %s into can_reset" % (short(f.id), v),
+                                "can_reset may become true only on a path that has just tested has_non_ignorable_parser_errors "
+                                "to be false (and every later setter of the flag must clear it again)", ["%s:%d" % (f.file, e.line)])
+    r.floor(rid, n_set + n_store, 2, "flag updates in SilentOnIgnoredFilesEmitter")
